@@ -31,7 +31,7 @@ LLVM_TARGETS = {
     "x86_64": ("x86_64", "", ["--output-asm-variant=1"]),
     "avr": ("avr", "+avr6", []),
     "msp430": ("msp430", "", []),
-    "mips": ("mips", "+mips32r2", []),
+    "mips": ("mipsel", "+mips32r2", []),
     "m68k": ("m68k", "", []),
 }
 
@@ -47,6 +47,11 @@ def llvm_mc():
 _ENC = re.compile(r"encoding: \[([^\]]*)\]")
 
 
+class _Crashed(Exception):
+    """llvm-mc terminated abnormally on this input (llvm-mc 14 -triple=msp430 dies with 'stack
+    smashing detected' on e.g. `24 12` = push @r4; -triple=avr crashed on some streams)."""
+
+
 def _run(target, blobs):
     exe = llvm_mc()
     if exe is None:
@@ -58,6 +63,8 @@ def _run(target, blobs):
     cmd += extra
     src = "\n".join(" ".join("0x%02x" % b for b in blob) for blob in blobs) + "\n"
     p = subprocess.run(cmd, input=src.encode(), capture_output=True)
+    if p.returncode < 0 or b"PLEASE submit a bug report" in p.stderr:
+        raise _Crashed(p.stderr.decode(errors="replace")[:300])  # the tool itself died (decode() bisects)
     if p.returncode != 0:
         raise HarnessError("llvm-mc failed: %s" % p.stderr.decode(errors="replace")[:500])
     outs = []
@@ -85,7 +92,23 @@ def _tile(blob, outs):
 
 
 def decode_one(target, blob):
-    return _walk([bytes(blob)], _run(target, [bytes(blob)]))[0]
+    return _decode_chunk(target, [bytes(blob)])[0]
+
+
+def _decode_chunk(target, data):
+    """_walk(_run(data)); when llvm-mc crashes on the stream the chunk is halved recursively and
+    the inputs that crash it on their own are reported undecodable (None)."""
+    try:
+        return _walk(data, _run(target, data))
+    except _Crashed:
+        if len(data) == 1:
+            CRASHES[target] = CRASHES.get(target, 0) + 1
+            return [None]
+        h = len(data) // 2
+        return _decode_chunk(target, data[:h]) + _decode_chunk(target, data[h:])
+
+
+CRASHES = {}  # target -> number of single inputs on which the reference tool crashed (this process)
 
 
 def _walk(blobs, outs, max_skip=64):
@@ -128,15 +151,133 @@ def _walk(blobs, outs, max_skip=64):
     return results
 
 
+# Targets decoded by position (round 2).  For these llvm-mc 14 does not always show the bytes it
+# consumed (avr: branch targets become fixups and the shown bytes have the offset field cleared or
+# garbled; m68k: the MCInst is re-encoded, don't-care bits differ) and an undecodable input
+# swallows bytes of its neighbour (msp430 `b0 12` = call #<next word>).  So every input goes on
+# its own line followed by NOP padding, and outputs are associated purely by position: the stream
+# is walked from 0; at a position for which llvm-mc printed "invalid instruction encoding"
+# (stderr carries line:column, i.e. the byte position) SKIP bytes are passed over, otherwise the
+# next output is consumed with the length of its shown encoding.  The walk must use up all
+# outputs and end exactly at the end of the stream, and every output whose shown bytes are
+# reliable must equal the stream there (all of them for msp430/mips, the opcode word for m68k,
+# everything but '<unknown>' fixups for avr); a chunk failing that is halved and retried, a single
+# input failing it is undecodable.
+#            nop bytes            count  skip   shown bytes compared
+POSITIONAL = {
+    "msp430": (b"\x03\x43", 3, 2, None),
+    "m68k": (b"\x4e\x71", 6, 2, 2),
+    "avr": (b"\x00\x00", 2, 4, None),
+    "mips": (b"\x00\x00\x00\x00", 1, 4, None),
+}
+_WARN = re.compile(r"^<stdin>:(\d+):(\d+): warning: invalid instruction encoding", re.M)
+
+
+class _Inconsistent(Exception):
+    pass
+
+
+def _run_positional(target, blobs):
+    exe = llvm_mc()
+    if exe is None:
+        raise HarnessError("llvm-mc not found")
+    nop, count, skip, ncmp = POSITIONAL[target]
+    pad = nop * count
+    triple, mattr, extra = LLVM_TARGETS[target]
+    cmd = [exe, "--disassemble", "--show-encoding", "-triple=" + triple]
+    if mattr:
+        cmd.append("-mattr=" + mattr)
+    cmd += extra
+    lines = [b + pad for b in blobs]
+    src = "\n".join(" ".join("0x%02x" % x for x in ln) for ln in lines) + "\n"
+    p = subprocess.run(cmd, input=src.encode(), capture_output=True)
+    err = p.stderr.decode(errors="replace")
+    if p.returncode < 0 or "PLEASE submit a bug report" in err:
+        raise _Crashed(err[:300])
+    if p.returncode != 0:
+        raise HarnessError("llvm-mc failed: %s" % err[:500])
+    starts = []
+    pos = 0
+    for ln in lines:
+        starts.append(pos)
+        pos += len(ln)
+    total = pos
+    stream = b"".join(lines)
+    bad = set()
+    for m in _WARN.finditer(err):
+        li, col = int(m.group(1)) - 1, int(m.group(2)) - 1
+        if li >= len(lines) or col % 5:
+            raise _Inconsistent("warning position")
+        bad.add(starts[li] + col // 5)
+    outs = []
+    for line in p.stdout.decode(errors="replace").splitlines():
+        m = _ENC.search(line)
+        if not m:
+            continue
+        enc = bytes(int(x, 16) for x in m.group(1).split(",") if x.strip())
+        text = line[: m.start()].rstrip().rstrip("#@;").strip()
+        outs.append((text, enc))
+    placed = {}
+    pos = 0
+    k = 0
+    while pos < total:
+        if pos in bad:
+            bad.discard(pos)
+            pos += skip
+            continue
+        if k >= len(outs):
+            raise _Inconsistent("outputs exhausted")
+        text, enc = outs[k]
+        k += 1
+        if not enc:
+            raise _Inconsistent("empty encoding")
+        if "<unknown>" not in text:
+            n = len(enc) if ncmp is None else min(ncmp, len(enc))
+            if stream[pos : pos + n] != enc[:n]:
+                raise _Inconsistent("shown bytes differ")
+        placed[pos] = (text, len(enc))
+        pos += len(enc)
+    if pos != total or k != len(outs) or bad:
+        raise _Inconsistent("stream not tiled")
+    results = []
+    for a, b in zip(starts, blobs):
+        end = a + len(b)
+        q = a
+        res = []
+        while q < end and q in placed:
+            res.append(placed[q])
+            q += placed[q][1]
+        results.append(res if (res and q == end) else None)
+    return results
+
+
+def _decode_positional(target, data):
+    try:
+        return _run_positional(target, data)
+    except (_Crashed, _Inconsistent) as e:
+        if len(data) == 1:
+            key = target if isinstance(e, _Crashed) else target + "/inconsistent"
+            CRASHES[key] = CRASHES.get(key, 0) + 1
+            return [None]
+        h = len(data) // 2
+        return _decode_positional(target, data[:h]) + _decode_positional(target, data[h:])
+
+
 def decode(target, blobs, batch=4000):
     """Per input: [(text, nbytes), ...] or None (empty inputs give None)."""
     blobs = [bytes(b) for b in blobs]
     results = [None] * len(blobs)
     todo = [i for i, b in enumerate(blobs) if b]
+    if target in POSITIONAL:
+        for start in range(0, len(todo), batch):
+            chunk = todo[start : start + batch]
+            for i, r in zip(chunk, _decode_positional(target, [blobs[i] for i in chunk])):
+                results[i] = r
+        return results
     for start in range(0, len(todo), batch):
         chunk = todo[start : start + batch]
         data = [blobs[i] for i in chunk]
-        for i, r in zip(chunk, _walk(data, _run(target, data))):
+        for i, r in zip(chunk, _decode_chunk(target, data)):
             results[i] = r
     return results
 
@@ -236,6 +377,12 @@ def reference_decode(target, blobs, tmpdir=None):
     Returns None when the target has no reference decoder here."""
     if target == "x86_64":
         return decode_x86(blobs, tmpdir)
+    if target == "avr":
+        res = decode(target, blobs)
+        for i, (b, r) in enumerate(zip(blobs, res)):
+            if r is None:
+                res[i] = avr_ldst_decode(bytes(b))  # LD/LDD/ST/STD: no decoder table in llvm-mc 14
+        return res
     if target in LLVM_TARGETS:
         return decode(target, blobs)
     return None
@@ -789,20 +936,515 @@ def _x86_ref(texts):
     return out
 
 
+# ===========================================================================
+# Round 2 families: msp430, avr, mips, m68k.
+#
+# Operands of these families are compared strictly (compare(..., strict=True)): a different
+# operand kind or operand count is a difference, not "unverifiable".  Memory operands are
+#     ("a", mode, register | None, displacement | "L")
+# with the modes named below; "L" (a label) matches any displacement of the same mode/register.
+
+
+def _num(s):
+    s = s.strip()
+    neg = s.startswith("-")
+    if s[:1] in "+-":
+        s = s[1:]
+    if s.startswith("$"):
+        v = int(s[1:], 16)
+    else:
+        v = int(s, 0)
+    return -v if neg else v
+
+
+_NUM = r"[-+]?(?:0[xX][0-9a-fA-F]+|\d+)"
+
+
+def _split_commas(rest):
+    parts, depth, cur = [], 0, ""
+    for ch in rest:
+        if ch in "([":
+            depth += 1
+        elif ch in ")]":
+            depth -= 1
+        if ch == "," and depth == 0:
+            parts.append(cur.strip())
+            cur = ""
+        else:
+            cur += ch
+    if cur.strip():
+        parts.append(cur.strip())
+    return parts
+
+
+# --- MSP430 (SLAU144 "MSP430x2xx Family User's Guide", ch. 3: CPU) -----------------------------
+# Addressing modes (3.3): Rn | X(Rn) | ADDR (symbolic = X(PC)) | &ADDR (absolute = X(SR), SR read
+# as 0) | @Rn | @Rn+ | #N (= @PC+).  Constant generators (3.2.4, table 3-2), source operand only:
+#   R2: As=01 -> absolute mode, As=10 -> #4, As=11 -> #8;  R3: As=00 -> #0, 01 -> #1, 10 -> #2, 11 -> #-1
+# Emulated instructions: table 3-13 ("MSP430 instruction set", the rows marked emulated) and 3.4.
+
+_MSP_REGS = {"r%d" % i: "r%d" % i for i in range(16)}
+_MSP_REGS.update({"pc": "r0", "sp": "r1", "sr": "r2", "cg": "r3", "cg1": "r2", "cg2": "r3"})
+_MSP_CG = {("reg", "r3"): 0, ("ind", "r3"): 2, ("inc", "r3"): -1, ("ind", "r2"): 4, ("inc", "r2"): 8}
+_MSP_JSYN = {"jnz": "jne", "jz": "jeq", "jnc": "jlo", "jc": "jhs"}
+_MSP_FMT1 = ("mov", "add", "addc", "subc", "sub", "cmp", "dadd", "bit", "bic", "bis", "xor", "and")
+_MSP_FMT2 = ("rrc", "swpb", "rra", "sxt", "push", "call")
+_MSP_JUMPS = ("jne", "jeq", "jlo", "jhs", "jn", "jge", "jl", "jmp")
+_SR, _PC, _SP = ("r", "r2"), ("r", "r0"), ("r", "r1")
+# emulated mnemonic -> (core mnemonic, source operand or None = "the operand itself")
+_MSP_EMU1 = {  # one operand: dst
+    "adc": ("addc", ("i", 0)), "clr": ("mov", ("i", 0)), "dadc": ("dadd", ("i", 0)), "dec": ("sub", ("i", 1)),
+    "decd": ("sub", ("i", 2)), "inc": ("add", ("i", 1)), "incd": ("add", ("i", 2)), "inv": ("xor", ("i", 0xFFFF)),
+    "sbc": ("subc", ("i", 0)), "tst": ("cmp", ("i", 0)), "rla": ("add", None), "rlc": ("addc", None),
+}
+_MSP_EMU0 = {  # no operand
+    "clrc": ("bic", ("i", 1), _SR), "clrn": ("bic", ("i", 4), _SR), "clrz": ("bic", ("i", 2), _SR),
+    "setc": ("bis", ("i", 1), _SR), "setn": ("bis", ("i", 4), _SR), "setz": ("bis", ("i", 2), _SR),
+    "dint": ("bic", ("i", 8), _SR), "eint": ("bis", ("i", 8), _SR), "nop": ("mov", ("i", 0), ("r", "r3")),
+    "ret": ("mov", ("a", "inc", "r1", 0), _PC),
+}
+_MSP_OP = re.compile(
+    r"^(?:#(?P<imm>%s)|#(?P<ilab>[A-Za-z_]\w*)|&(?P<abs>%s)|&(?P<alab>[A-Za-z_]\w*)|@(?P<ind>\w+)(?P<inc>\+?)"
+    r"|(?P<x>%s)\((?P<xr>\w+)\)|(?P<sym>%s)|(?P<id>[A-Za-z_]\w*))$" % (_NUM, _NUM, _NUM, _NUM)
+)
+
+
+def _msp_reg(name):
+    r = _MSP_REGS.get(name.lower())
+    if r is None:
+        raise _Unknown(name)
+    return r
+
+
+def _msp_operand(text, source):
+    m = _MSP_OP.match(text.strip())
+    if not m:
+        raise _Unknown(text)
+    if m.group("imm") is not None:
+        return ("i", _num(m.group("imm")) & 0xFFFF)
+    if m.group("ilab") is not None:
+        if m.group("ilab") not in LABEL_NAMES:
+            raise _Unknown(text)
+        return ("L",)
+    if m.group("abs") is not None:
+        return ("a", "abs", None, _num(m.group("abs")) & 0xFFFF)
+    if m.group("alab") is not None:
+        if m.group("alab") not in LABEL_NAMES:
+            raise _Unknown(text)
+        return ("a", "abs", None, "L")
+    if m.group("ind") is not None:
+        mode, r = ("inc" if m.group("inc") else "ind"), _msp_reg(m.group("ind"))
+        if source and (mode, r) in _MSP_CG:
+            return ("i", _MSP_CG[(mode, r)] & 0xFFFF)
+        if r == "r0" and mode == "inc":
+            raise _Unknown("@pc+ is the immediate mode: the operand is the next word")
+        return ("a", mode, r, 0)
+    if m.group("x") is not None:
+        r, x = _msp_reg(m.group("xr")), _num(m.group("x")) & 0xFFFF
+        if r == "r2":
+            return ("a", "abs", None, x)  # X(SR) is the absolute mode
+        if source and r == "r3":
+            raise _Unknown("X(R3) as a source is the constant #1 and has no index word")
+        return ("a", "idx", r, x)
+    if m.group("sym") is not None:  # symbolic mode ADDR = X(PC), printed by the reference as a bare number
+        return ("a", "idx", "r0", _num(m.group("sym")) & 0xFFFF)
+    name = m.group("id")
+    if name.lower() in _MSP_REGS:
+        r = _msp_reg(name)
+        if source and ("reg", r) in _MSP_CG:
+            return ("i", _MSP_CG[("reg", r)])
+        return ("r", r)
+    raise _Unknown(text)
+
+
+def _msp_norm(text, ref):
+    mn, rest = _split_mnemonic(text)
+    size = ""
+    if mn.endswith(".b"):
+        mn, size = mn[:-2], ".b"
+    elif mn.endswith(".w"):
+        mn = mn[:-2]
+    mn = _MSP_JSYN.get(mn, mn)
+    parts = _split_commas(rest)
+    if mn in _MSP_JUMPS:
+        if len(parts) != 1:
+            raise _Unknown(text)
+        t = parts[0]
+        if not (t in LABEL_NAMES or (ref and re.match(r"^\$[-+]\d+$|^%s$" % _NUM, t))):
+            raise _Unknown(text)
+        return (mn, (("L",),))
+    if mn == "reti" and not parts:
+        return ("reti", ())
+    if mn in _MSP_EMU0 and not parts:
+        core, src, dst = _MSP_EMU0[mn]
+        return (core + size, (src, dst))
+    if mn == "br" and len(parts) == 1:  # BR dst = MOV dst, PC
+        return ("mov", (_msp_operand(parts[0], True), _PC))
+    if mn == "pop" and len(parts) == 1:  # POP dst = MOV @SP+, dst
+        return ("mov" + size, (("a", "inc", "r1", 0), _msp_operand(parts[0], False)))
+    if mn in _MSP_EMU1 and len(parts) == 1:
+        core, src = _MSP_EMU1[mn]
+        if src is None:  # RLA dst = ADD dst, dst
+            return (core + size, (_msp_operand(parts[0], True), _msp_operand(parts[0], False)))
+        if mn == "inv" and size:
+            src = ("i", 0xFFFF)  # the constant generator gives -1; byte operations use the low byte
+        return (core + size, (src, _msp_operand(parts[0], False)))
+    if mn in _MSP_FMT1 and len(parts) == 2:
+        return (mn + size, (_msp_operand(parts[0], True), _msp_operand(parts[1], False)))
+    if mn in _MSP_FMT2 and len(parts) == 1:
+        return (mn + size, (_msp_operand(parts[0], True),))
+    raise _Unknown(text)
+
+
+def _msp_ppci(text):
+    return [_msp_norm(text, False)]
+
+
+def _msp_ref(texts):
+    return [_msp_norm(t, True) for t in texts]
+
+
+# --- AVR (Atmel "AVR Instruction Set Manual", 0856) ---------------------------------------------
+# Register pairs are named by their low register (MOVW Rd+1:Rd; ADIW Rd+1:Rd with d in
+# {24,26,28,30}); X = r27:r26, Y = r29:r28, Z = r31:r30.  Aliases as documented: LSL Rd = ADD Rd,Rd;
+# ROL Rd = ADC Rd,Rd; TST Rd = AND Rd,Rd; CLR Rd = EOR Rd,Rd; SER Rd = LDI Rd,0xFF; SBR = ORI;
+# CBR Rd,K = ANDI Rd,~K; BRLO = BRCS, BRSH = BRCC; LD Rd,Y = LDD Rd,Y+0.
+
+_AVR_REGS = {"r%d" % i: "r%d" % i for i in range(32)}
+_AVR_PAIRS = {"w": "r24", "x": "r26", "y": "r28", "z": "r30"}
+for _i in range(0, 32, 2):
+    _AVR_PAIRS["r%d:r%d" % (_i + 1, _i)] = "r%d" % _i
+_AVR_PTR = {"x": "r26", "y": "r28", "z": "r30"}
+_AVR_BR = ("brne", "breq", "brlt", "brge", "brcs", "brcc", "brmi", "brpl", "brvs", "brvc", "brhs", "brhc", "brts", "brtc",
+           "brie", "brid", "rjmp", "rcall", "jmp", "call")
+_AVR_BRSYN = {"brlo": "brcs", "brsh": "brcc"}
+_AVR_IMM8 = ("ldi", "cpi", "subi", "sbci", "andi", "ori")
+_AVR_WORD = {  # ppci's word pseudo-instructions -> the two byte operations they stand for
+    "addw": ("add", "adc"), "subw": ("sub", "sbc"), "cpw": ("cp", "cpc"), "andw": ("and", "and"), "orw": ("or", "or"),
+}
+_AVR_MEM = re.compile(r"^(?:(?P<pre>-)?(?P<p>[xyzXYZ])(?P<post>\+)?|(?P<q>[yzYZ])\s*\+\s*(?P<d>%s))$" % _NUM)
+
+
+def _avr_operand(t, pair=False):
+    t = t.strip()
+    lt = t.lower()
+    m = _AVR_MEM.match(t)
+    if pair and lt in _AVR_PAIRS:
+        return ("r", _AVR_PAIRS[lt])
+    if m:
+        if m.group("q"):
+            return ("a", "disp", _AVR_PTR[m.group("q").lower()], _num(m.group("d")))
+        r = _AVR_PTR[m.group("p").lower()]
+        if m.group("pre"):
+            return ("a", "predec", r, 0)
+        if m.group("post"):
+            return ("a", "postinc", r, 0)
+        return ("a", "disp", r, 0)
+    if lt in _AVR_REGS:
+        return ("r", lt)
+    if lt in _AVR_PAIRS:
+        return ("r", _AVR_PAIRS[lt])
+    m = re.match(r"^(low|high|lo8|hi8)\((\w+)\)$", t)
+    if m and m.group(2) in LABEL_NAMES:
+        return ("L",)
+    if t in LABEL_NAMES or t == "<unknown>" or re.match(r"^\.[-+]\d+$", t):
+        return ("L",)
+    if re.match("^%s$" % _NUM, t):
+        return ("i", _num(t))
+    raise _Unknown(t)
+
+
+def _avr_one(mn, parts):
+    mn = _AVR_BRSYN.get(mn, mn)
+    if mn in _AVR_BR:
+        if len(parts) != 1:
+            raise _Unknown(mn)
+        o = _avr_operand(parts[0])
+        if o[0] == "i":
+            o = ("L",)
+        if o != ("L",):
+            raise _Unknown(parts[0])
+        return (mn, (o,))
+    ops = [_avr_operand(p, pair=mn in ("movw", "adiw", "sbiw")) for p in parts]
+    if mn in ("lsl", "rol", "tst", "clr") and len(ops) == 1:
+        return ({"lsl": "add", "rol": "adc", "tst": "and", "clr": "eor"}[mn], (ops[0], ops[0]))
+    if mn == "ser" and len(ops) == 1:
+        return ("ldi", (ops[0], ("i", 255)))
+    if mn == "sbr":
+        mn = "ori"
+    if mn == "cbr" and len(ops) == 2 and ops[1][0] == "i":
+        mn, ops = "andi", [ops[0], ("i", ~ops[1][1] & 0xFF)]
+    if mn in _AVR_IMM8 and len(ops) == 2 and ops[1][0] == "i" and -128 <= ops[1][1] <= 255:
+        ops[1] = ("i", ops[1][1] & 0xFF)  # an 8-bit register operand: -1 and 255 are the same byte
+    if mn in ("lds", "sts"):
+        ops = [("i", o[1] & 0xFFFF) if o[0] == "i" and -32768 <= o[1] <= 65535 else o for o in ops]
+    if mn in ("ld", "ldd", "st", "std"):
+        mn = mn[:2]  # LD Rd, Y is LDD Rd, Y+0: one mnemonic, the mode is in the operand
+    return (mn, tuple(ops))
+
+
+def _avr_ppci(text):
+    mn, rest = _split_mnemonic(text)
+    parts = _split_commas(rest)
+    if mn in _AVR_WORD and len(parts) == 2:
+        lo, hi = _AVR_WORD[mn]
+        (da, db), (ra, rb) = _avr_pair(parts[0]), _avr_pair(parts[1])
+        return [(lo, (("r", da), ("r", ra))), (hi, (("r", db), ("r", rb)))]
+    if mn == "ldiw" and len(parts) == 2:
+        da, db = _avr_pair(parts[0])
+        m = re.match(r"^@\((\w+)\)$", parts[1])
+        if m and m.group(1) in LABEL_NAMES:
+            return [("ldi", (("r", da), ("L",))), ("ldi", (("r", db), ("L",)))]
+        k = _num(parts[1])
+        if not -32768 <= k <= 65535:
+            raise _Unknown("ldiw operand beyond 16 bits")
+        return [("ldi", (("r", da), ("i", k & 0xFF))), ("ldi", (("r", db), ("i", (k >> 8) & 0xFF)))]
+    if mn == "stw" and len(parts) == 2:
+        da, db = _avr_pair(parts[1])
+        o = _avr_operand(parts[0])
+        if o[:2] != ("a", "postinc"):
+            raise _Unknown(text)
+        return [("st", (o, ("r", da))), ("st", (o, ("r", db)))]  # little endian: low byte first
+    if mn in ("ldd_word", "std_word") and len(parts) == 2:
+        ld = mn == "ldd_word"
+        da, db = _avr_pair(parts[0 if ld else 1])
+        o = _avr_operand(parts[1 if ld else 0])
+        if o[:2] != ("a", "disp"):
+            raise _Unknown(text)
+        o2 = ("a", "disp", o[2], o[3] + 1)
+        if ld:
+            return [("ld", (("r", da), o)), ("ld", (("r", db), o2))]
+        return [("st", (o, ("r", da))), ("st", (o2, ("r", db)))]
+    if mn == "negw":
+        raise _Unknown("multi-instruction pseudo without a fixed expansion")
+    return [_avr_one(mn, parts)]
+
+
+def _avr_pair(t):
+    lo = _AVR_PAIRS.get(t.strip().lower())
+    if lo is None:
+        raise _Unknown(t)
+    return lo, "r%d" % (int(lo[1:]) + 1)
+
+
+def _avr_ref(texts):
+    out = []
+    for t in texts:
+        mn, rest = _split_mnemonic(t)
+        out.append(_avr_one(mn, _split_commas(rest)))
+    return out
+
+
+def avr_ldst_decode(blob):
+    """Own decoder for the AVR loads/stores llvm-mc 14 has no decoder table for, from the AVR
+    Instruction Set Manual (LD/LDD: 1001 000d dddd 11mm (X), 10q0 qq0d dddd 1qqq (Y+q),
+    10q0 qq0d dddd 0qqq (Z+q), 1001 000d dddd {1001 Y+, 1010 -Y, 0001 Z+, 0010 -Z}; ST/STD: the
+    same with bit 9 set).  -> [(text, 2), ...] when every 16-bit word of blob is one of them."""
+    if not blob or len(blob) % 2:
+        return None
+    out = []
+    for i in range(0, len(blob), 2):
+        w = blob[i] | (blob[i + 1] << 8)
+        d = "r%d" % ((w >> 4) & 31)
+        st = bool(w & 0x0200)
+        if w & 0xFC00 == 0x9000:
+            mode = {0xC: "X", 0xD: "X+", 0xE: "-X", 0x9: "Y+", 0xA: "-Y", 0x1: "Z+", 0x2: "-Z"}.get(w & 15)
+            if mode is None:
+                return None
+            mn = "st" if st else "ld"
+        elif w & 0xD000 == 0x8000:
+            q = ((w >> 8) & 0x20) | ((w >> 7) & 0x18) | (w & 7)
+            mode = "%s+%d" % ("Y" if w & 8 else "Z", q)
+            mn = "std" if st else "ldd"
+        else:
+            return None
+        out.append(("%s\t%s, %s" % (mn, mode, d) if st else "%s\t%s, %s" % (mn, d, mode), 2))
+    return out
+
+
+# --- MIPS32 (MIPS Architecture for Programmers vol. II-A) -----------------------------------------
+# Register names of the o32 ABI.  Assembly idioms as documented: NOP = SLL r0,r0,0; MOVE rd,rs =
+# ADDU/OR rd,rs,r0; NOT rd,rs = NOR rd,rs,r0; NEGU rd,rt = SUBU rd,r0,rt; JALR rs = JALR r31,rs;
+# JR rs; LUI rt,imm (rs field must be 0); SLLV/SRLV/SRAV rd, rt, rs (the amount is the LAST operand).
+
+_MIPS_ABI = ["zero", "at", "v0", "v1", "a0", "a1", "a2", "a3", "t0", "t1", "t2", "t3", "t4", "t5", "t6", "t7",
+             "s0", "s1", "s2", "s3", "s4", "s5", "s6", "s7", "t8", "t9", "k0", "k1", "gp", "sp", "fp", "ra"]
+_MIPS_REGS = {}
+for _i, _n in enumerate(_MIPS_ABI):
+    for _k in (_n, "$" + _n, "r%d" % _i, "$%d" % _i):
+        _MIPS_REGS[_k] = "$%d" % _i
+_MIPS_REGS["s8"] = _MIPS_REGS["$s8"] = "$30"
+_MIPS_UIMM = ("andi", "ori", "xori", "lui")
+
+
+def _mips_ops(rest):
+    out = []
+    for part in _split_commas(rest):
+        m = re.match(r"^(%s)\(([$\w]+)\)$" % _NUM, part)
+        if m:
+            out.append(("a", "disp", _mips_reg(m.group(2)), _num(m.group(1))))
+        elif part.lower() in _MIPS_REGS:
+            out.append(("r", _MIPS_REGS[part.lower()]))
+        elif part in LABEL_NAMES:
+            out.append(("L",))
+        elif re.match("^%s$" % _NUM, part):
+            out.append(("i", _num(part)))
+        else:
+            raise _Unknown(part)
+    return out
+
+
+def _mips_reg(t):
+    r = _MIPS_REGS.get(t.lower())
+    if r is None:
+        raise _Unknown(t)
+    return r
+
+
+def _mips_common(mn, ops):
+    zero, ra = ("r", "$0"), ("r", "$31")
+    kinds = "".join(o[0] for o in ops)
+    if mn == "nop" and not ops:
+        return ("sll", (zero, zero, ("i", 0)))
+    if mn in ("addu", "or") and kinds == "rrr" and ops[2] == zero:
+        return ("move", (ops[0], ops[1]))
+    if mn == "not" and kinds == "rr":
+        return ("nor", (ops[0], ops[1], zero))
+    if mn in ("negu", "neg") and kinds == "rr":
+        return ("sub" + mn[3:], (ops[0], zero, ops[1]))
+    if mn == "jalr" and kinds == "r":
+        return ("jalr", (ra, ops[0]))
+    if mn in ("j", "jal") and kinds in ("i", "L"):
+        return (mn, (("L",),))
+    return (mn, tuple(ops))
+
+
+def _mips_ppci(text):
+    mn, rest = _split_mnemonic(text)
+    ops = _mips_ops(rest)
+    if mn == "lui" and len(ops) == 3 and ops[1] == ("r", "$0"):
+        ops = [ops[0], ops[2]]  # printed with the rs field, which the architecture requires to be 0
+    return [_mips_common(mn, ops)]
+
+
+def _mips_ref(texts):
+    out = []
+    for t in texts:
+        mn, rest = _split_mnemonic(t)
+        ops = _mips_ops(rest)
+        out.append(_mips_common(mn, ops))
+    return out
+
+
+# --- M68000 (M68000 Family Programmer's Reference Manual) ------------------------------------------
+# ppci glues the size to the mnemonic (addb/addw/addl, moveaw, ...); the reference prints
+# Motorola syntax with %-prefixed registers: add.b (d16,%an), %dn.  MOVE with an address register
+# destination is MOVEA (PRM 4-116).  d16 / abs.W / immediates are compared modulo the operand size.
+
+_M68_REGS = {"d%d" % i: "d%d" % i for i in range(8)}
+_M68_REGS.update({"a%d" % i: "a%d" % i for i in range(8)})
+_M68_REGS["sp"] = "a7"
+_M68_SIZED = ("add", "and", "cmp", "eor", "or", "sub", "neg", "not", "move", "movea", "adda", "suba", "cmpa")
+_M68_BITS = {"b": 8, "w": 16, "l": 32}
+_M68_BCC = ("bne", "beq", "bge", "blt", "bgt", "ble", "bra", "bsr", "bhi", "bls", "bcc", "bcs", "bvc", "bvs", "bpl", "bmi")
+
+
+def _m68_reg(t):
+    r = _M68_REGS.get(t.strip().lstrip("%").lower())
+    if r is None:
+        raise _Unknown(t)
+    return r
+
+
+def _m68_operand(t, bits):
+    t = t.strip()
+    if t.startswith("#"):
+        return ("i", _num(t[1:]) & ((1 << bits) - 1))
+    if t in LABEL_NAMES:
+        return ("a", "pcrel", None, "L")
+    m = re.match(r"^\(\s*(%s)\s*\)\.([wl])$" % _NUM, t)
+    if m:
+        return ("a", "abs" + m.group(2), None, _num(m.group(1)) & (0xFFFF if m.group(2) == "w" else 0xFFFFFFFF))
+    m = re.match(r"^\(\s*(%s)\s*,\s*(%%?\w+)\s*\)$" % _NUM, t)
+    if m:
+        if m.group(2).lstrip("%").lower() == "pc":
+            return ("a", "pcrel", None, _num(m.group(1)) & 0xFFFF)
+        return ("a", "disp", _m68_reg(m.group(2)), _num(m.group(1)) & 0xFFFF)
+    m = re.match(r"^(-)?\(\s*(%?\w+)\s*\)(\+)?$", t)
+    if m:
+        mode = "predec" if m.group(1) else ("postinc" if m.group(3) else "ind")
+        if m.group(1) and m.group(3):
+            raise _Unknown(t)
+        return ("a", mode, _m68_reg(m.group(2)), 0)
+    if t.lstrip("%").lower() in _M68_REGS:
+        return ("r", _m68_reg(t))
+    raise _Unknown(t)
+
+
+def _m68_norm(text, ref):
+    mn, rest = _split_mnemonic(text)
+    size = None
+    if ref:
+        if "." in mn:
+            mn, sz = mn.split(".", 1)
+            if sz not in _M68_BITS:
+                raise _Unknown(text)
+            size = sz
+    else:
+        if mn[-1:] in _M68_BITS and mn[:-1] in _M68_SIZED:
+            mn, size = mn[:-1], mn[-1]
+    parts = _split_commas(rest)
+    if mn in _M68_BCC:
+        if len(parts) != 1 or not (parts[0] in LABEL_NAMES or (ref and re.match(r"^\$[0-9a-fA-F]+$|^%s$" % _NUM, parts[0]))):
+            raise _Unknown(text)
+        return (mn, (("L",),))
+    bits = _M68_BITS.get(size, 32)
+    if mn == "moveq":
+        bits = 8
+    if mn == "lea" or mn == "jsr":
+        bits = 32
+    ops = [_m68_operand(p, bits) for p in parts]
+    if mn == "move" and len(ops) == 2 and ops[1][0] == "r" and ops[1][1].startswith("a"):
+        mn = "movea"
+    return (mn + ("." + size if size else ""), tuple(ops))
+
+
+def _m68_ppci(text):
+    return [_m68_norm(text, False)]
+
+
+def _m68_ref(texts):
+    return [_m68_norm(t, True) for t in texts]
+
+
+STRICT_FAMILIES = ("msp430", "avr", "mips", "m68k")
+
+
 # --- entry points -----------------------------------------------------------------
 
 
-def normaliser_family(target):
+def normaliser_family(target, round2=False):
+    """Family of the hand-written normaliser for the target, or None.  The round-2 families
+    (msp430, avr, mips, m68k) are only reported when asked for: C10's decode part keys on this
+    function and was built and triaged for the first six configurations only."""
     if target.startswith("riscv"):
         return "riscv"
     if target in ("arm", "arm:thumb", "x86_64"):
         return target
+    if round2 and target in STRICT_FAMILIES:
+        return target
     return None
 
 
+_R2_PPCI = {"msp430": _msp_ppci, "avr": _avr_ppci, "mips": _mips_ppci, "m68k": _m68_ppci}
+_R2_REF = {"msp430": _msp_ref, "avr": _avr_ref, "mips": _mips_ref, "m68k": _m68_ref}
+
+
 def norm_ppci(target, text):
-    fam = normaliser_family(target)
+    fam = normaliser_family(target, round2=True)
     try:
+        if fam in _R2_PPCI:
+            return _R2_PPCI[fam](text)
         if fam == "riscv":
             return _rv_ppci(text)
         if fam == "arm":
@@ -818,9 +1460,11 @@ def norm_ppci(target, text):
 
 def norm_ref(target, decoded):
     """decoded: [(text, nbytes), ...] as returned by reference_decode."""
-    fam = normaliser_family(target)
+    fam = normaliser_family(target, round2=True)
     texts = [t for t, _ in decoded]
     try:
+        if fam in _R2_REF:
+            return _R2_REF[fam](texts)
         if fam == "riscv":
             return _rv_ref(texts)
         if fam == "arm":
@@ -834,16 +1478,22 @@ def norm_ref(target, decoded):
     return None
 
 
-def compare(a, b):
+def compare(a, b, strict=False):
     """None when the canonical forms agree, else a structured difference:
-    ("count", n_a, n_b) | ("mnemonic", i, m_a, m_b) | ("shape", i) | ("operand", i, k, x, y).
-    ("L",) matches any immediate/label; x86 ("mL",) matches any memory operand without base."""
+    ("count", n_a, n_b) | ("mnemonic", i, m_a, m_b) | ("shape", i) | ("operand", i, k, x, y) |
+    ("arity", i, n_a, n_b) (strict only).
+    ("L",) matches any immediate/label; x86 ("mL",) matches any memory operand without base;
+    ("a", mode, reg, "L") matches any displacement of the same mode and register.
+    strict (round-2 families): another operand count is ("arity", ...) and another operand kind is
+    an ("operand", ...) difference instead of the unverifiable "shape"."""
     if len(a) != len(b):
         return ("count", len(a), len(b))
     for i, ((ma, oa), (mb, ob)) in enumerate(zip(a, b)):
         if ma != mb:
             return ("mnemonic", i, ma, mb)
         if len(oa) != len(ob):
+            if strict:
+                return ("arity", i, len(oa), len(ob))
             return ("shape", i)  # different operand count: syntax variants the normaliser does not bridge
         for k, (x, y) in enumerate(zip(oa, ob)):
             if x == y:
@@ -854,7 +1504,11 @@ def compare(a, b):
                 continue
             if x == ("mL",) and y[0] == "m" and y[1] is None and y[2] is None:
                 continue
+            if x[0] == y[0] == "a" and x[1:3] == y[1:3] and "L" in (x[3], y[3]):
+                continue
             if x[0] != y[0]:
+                if strict:
+                    return ("operand", i, k, x, y)
                 return ("shape", i)
             return ("operand", i, k, x, y)
     return None
@@ -867,6 +1521,8 @@ def describe_diff(d):
         return "mnemonic %s vs %s" % (d[2], d[3])
     if d[0] == "operand":
         return "operand %d: %s vs %s" % (d[2], _show(d[3]), _show(d[4]))
+    if d[0] == "arity":
+        return "%d operands vs %d" % (d[2], d[3])
     return d[0]
 
 
